@@ -56,6 +56,9 @@ def noninterference(rep, name):
     args = sp.fresh_args()
     for f in "BHJM":
         paths = [p for p in sp.run(f, args=args) if "out" in p]
+        from contracts.bhjm import report_problems
+
+        report_problems(rep, sp, f"{name}.{f}", fn["function"])
         rep.paths += len(paths)
         for (i, p1), (j, p2) in itertools.combinations_with_replacement(list(enumerate(paths, 1)), 2):
             gl = _globals_of(p2["pc"] + p2["ax"] + p2["out"])
